@@ -637,6 +637,9 @@ def run(ctx):
     ctx.guard("select", "ge", lambda: check_select(ctx, P, "fe64"))
     ctx.guard("decode", "ge", lambda: check_decode(ctx, P))
     ctx.guard("slide", "scalar", lambda: check_slide(ctx, P))
+    from . import C14 as _C14
+    ctx.guard("window", "double_scalarmult_vartime", lambda: _C14.check_window(ctx, P))
+    ctx.guard("window", "scan-start", lambda: _C14.check_scan(ctx, P))
     from . import C13
     ctx.guard("table", "scalar64", lambda: C13.check_tables(ctx, P))
     P2 = ctx.prog("K2")
